@@ -1300,11 +1300,17 @@ impl LsmTree {
         if compaction.inputs().count() == 1 {
             // SAFETY(rescrv): This is ensured by count in a good implementation.
             let input = compaction.inputs().next().unwrap();
+            #[cfg(rescrv_blue_verif)]
+            crate::verif::set_last_kind(crate::verif::KIND_TRIVIAL_MOVE);
             return self.apply_moving_compaction(compaction, input);
         }
         if compaction.top_level() {
+            #[cfg(rescrv_blue_verif)]
+            crate::verif::set_last_kind(crate::verif::KIND_GARBAGE_COLLECTION);
             return self.perform_garbage_collection(compaction);
         }
+        #[cfg(rescrv_blue_verif)]
+        crate::verif::set_last_kind(crate::verif::KIND_MERGE);
         let mut mani_edit = Edit::default();
         let (input_setsum, mut cursor, compaction_dir) =
             self.compaction_setup(&compaction, &mut mani_edit)?;
